@@ -1,7 +1,7 @@
 (* C02 — embed: result = calling outer, which forwards *args/**kwargs to inner. *)
 From Sigtools.Model Require Import Base Bind Roles Algebra.
 From Sigtools.Model Require Import Universe.
-From Sigtools.Proofs Require Import SmallModel Basics Deciders SweepDefs SweepDefs2 Bounded2 MergeNeutral SweepDefs3 Bounded3 EmbedSound EmbedSoundAssoc ForwardsSound EmbedChainN.
+From Sigtools.Proofs Require Import SmallModel Basics Deciders SweepDefs SweepDefs2 Bounded2 MergeNeutral SweepDefs3 Bounded3 EmbedSound EmbedSoundAssoc ForwardsSound EmbedChainN EmbedChainRaise.
 
 (* every result of embed went through the validating constructor *)
 Theorem C02_wf ss uva uvk r : embed ss uva uvk = Ok r -> validate (params r) = true.
@@ -152,4 +152,14 @@ Print Assumptions C02_chain_exact.
 Theorem C02_sound3 : forall (a b c : sigT) (uva uvk : bool) (ab r : sigT) (c0 : call), valid_sig (params a) = true -> valid_sig (params b) = true -> valid_sig (params c) = true -> embed [a; b] uva uvk = Ok ab -> embed [a; b; c] uva uvk = Ok r -> noncolliding c0 (params ab) [params a; params b] = true -> noncolliding c0 (params r) [params ab; params c] = true -> accepts (params r) c0 = true -> accepts (params a) c0 = true /\ accepts (params b) (surplus (params a) uva uvk c0) = true /\ accepts (params c) (surplus (params b) uva uvk (surplus (params a) uva uvk c0)) = true.
 Proof. exact @EmbedChainN.C02_sound3. Qed.
 Print Assumptions C02_sound3.
+
+
+(* ---- the raise clause for any number of signatures, unconditional (Proofs/EmbedChainRaise.v) ---- *)
+Theorem C02_chain_raises_unconditional : forall (rest : list sigT) (a : sigT) (uva uvk : bool), valid_sig (params a) = true -> Forall (fun s : sigT => valid_sig (params s) = true) rest -> embed (a :: rest) uva uvk = Err Incompatible -> exists (pre : list sigT) (b : sigT) (post : list sigT), rest = pre ++ b :: post /\ ((exists s : sigT, In s (a :: pre) /\ shares_name (params s) (params b) = true) \/ (forall c : call, EmbedChainN.chain_n (map params (a :: rest)) uva uvk c = false)).
+Proof. exact @EmbedChainRaise.C02_chain_raises_unconditional. Qed.
+Print Assumptions C02_chain_raises_unconditional.
+
+Theorem C02_chain_raises_level : forall (rest : list sigT) (a : sigT) (uva uvk : bool), valid_sig (params a) = true -> Forall (fun s : sigT => valid_sig (params s) = true) rest -> embed (a :: rest) uva uvk = Err Incompatible -> exists (pre : list sigT) (b : sigT) (post : list sigT), rest = pre ++ b :: post /\ (embed (a :: pre ++ [b]) uva uvk = Err ValueErr \/ (exists r : sigT, embed (a :: pre) uva uvk = Ok r /\ embed (a :: pre ++ [b]) uva uvk = Err Incompatible /\ (forall x : name, In x (nnames (params r)) -> exists s : sigT, In s (a :: pre) /\ In x (nnames (params s))) /\ (shares_name (params r) (params b) = true \/ (forall c : call, chain (params r) (params b) uva uvk 0 [] c = false)))).
+Proof. exact @EmbedChainRaise.C02_chain_raises_level. Qed.
+Print Assumptions C02_chain_raises_level.
 
